@@ -1006,3 +1006,53 @@ def j10_class_array_is_a_list(ctx) -> None:
             ctx.violation("J10", par, f"`{norm(par)}` reads the classes in the order of a JSON object's keys, not by position")
         else:
             ctx.ok("J10", "the classes are read back by position")
+
+
+def j11_pack_builders_carry_everything(ctx) -> None:
+    """Every StrategyPack method that returns a new pack (`self.__class__(...)`) passes all the
+    constructor's parameters: one left out silently falls back to its default (a pack made
+    iterative and then given a symmetry is recursive again)."""
+    P = ctx.P
+    cls = P.need_class("StrategyPack")
+    init = P.need_method("StrategyPack", "__init__", own=True)
+    params = [p for p in init.params() if p != "self"]
+    n = 0
+    for m in cls.methods.values():
+        for c in walk_local(m.node):
+            if not (isinstance(c, ast.Call) and norm(c.func) in ("self.__class__", "type(self)", "StrategyPack", "cls")):
+                continue
+            if m.name == "from_dict" and norm(c.func) == "cls":
+                given = set(params[:len(c.args)]) | {k.arg for k in c.keywords if k.arg}
+                opt = {"symmetries", "iterative"}
+            else:
+                given = set(params[:len(c.args)]) | {k.arg for k in c.keywords if k.arg}
+                opt = set()
+            n += 1
+            missing = [p for p in params if p not in given and p not in opt]
+            if any(k.arg is None for k in c.keywords):
+                missing = []
+            if missing:
+                ctx.violation("J11", c, f"StrategyPack.{m.name} builds the new pack without {missing}: the setting falls back to the constructor's default instead of being carried "
+                              "over from this pack")
+            else:
+                ctx.ok("J11", f"StrategyPack.{m.name} passes every constructor setting on")
+    # a pack rebuilt elsewhere from the parts of another pack
+    for fi in P.all_functions():
+        if fi.cls is cls:
+            continue
+        for c in walk_local(fi.node):
+            if not (isinstance(c, ast.Call) and norm(c.func) == "StrategyPack"):
+                continue
+            srcs = [norm(k.value.value) for k in c.keywords if isinstance(k.value, ast.Attribute) and k.value.attr in params] + \
+                   [norm(a.value) for a in c.args if isinstance(a, ast.Attribute) and a.attr in params]
+            if len(srcs) >= 2 and len(set(srcs)) == 1:
+                given = set(params[:len(c.args)]) | {k.arg for k in c.keywords if k.arg}
+                missing = [p for p in params if p not in given]
+                n += 1
+                if missing:
+                    ctx.violation("J11", c, f"{fi.qualname} rebuilds a pack from the parts of `{srcs[0]}` without {missing}: those fall back to the constructor's defaults "
+                                  "(a pack without its symmetries cannot recompute the rules the symmetries made)")
+                else:
+                    ctx.ok("J11", f"{fi.qualname} rebuilds a pack from all the parts of `{srcs[0]}`")
+    if n < 6:
+        ctx.floor("J11", 99)
